@@ -489,6 +489,17 @@ func (g *G) value(t *m.Type, locDefault bool, depth int) *m.Value {
 	if !g.o.NoVariables && r.Chance(1, 4) && !customScalar {
 		return g.variable(t, locDefault)
 	}
+	if !g.o.NoVariables && customScalar && t.Elem == nil && r.Chance(1, 3) {
+		// any literal is fine for a custom scalar, including ones that hold variables of any type
+		inner := g.variable(&m.Type{Name: r.Pick("Int", "String", "Boolean")}, false)
+		switch r.Intn(3) {
+		case 0:
+			return &m.Value{Kind: m.VObject, Fields: []m.ObjField{{Name: "k", Value: inner}, {Name: "c", Value: &m.Value{Kind: m.VInt, Raw: "1"}}}}
+		case 1:
+			return &m.Value{Kind: m.VList, Items: []*m.Value{{Kind: m.VString, Raw: "a"}, inner}}
+		}
+		return &m.Value{Kind: m.VObject, Fields: []m.ObjField{{Name: "deep", Value: &m.Value{Kind: m.VList, Items: []*m.Value{{Kind: m.VObject, Fields: []m.ObjField{{Name: "v", Value: inner}}}}}}}}
+	}
 	if g.o.NoVariables || !r.Chance(1, 3) {
 		d := 2
 		if g.o.DeepValues {
@@ -646,3 +657,156 @@ func (g *G) directivesWith(loc string, constOnly bool) []m.Dir {
 
 func (g *G) directives(loc string) []m.Dir      { return g.directivesWith(loc, false) }
 func (g *G) constDirectives(loc string) []m.Dir { return g.directivesWith(loc, true) }
+
+// ---------------------------------------------------------------- collision documents
+
+// CollisionDoc generates a document (valid or not — the reference validator decides) that maximises
+// response-name collisions: two aliases, fragments spread several times in exclusive and
+// non-exclusive contexts, the same fields reached through different parents. It targets the
+// field-merging rule and its caches.
+func CollisionDoc(r *core.Rand, mg *tsys.Merged) *m.Doc {
+	g := New(r, mg, &Opts{NoVariables: true, NoDirectives: true})
+	rootName := mg.Roots["query"]
+	root := mg.Types[rootName]
+	if root == nil {
+		return &m.Doc{}
+	}
+	var comps []string
+	for _, n := range mg.TypeNames {
+		if t := mg.Types[n]; t.IsComposite() && !strings.HasPrefix(n, "__") {
+			comps = append(comps, n)
+		}
+	}
+	nf := 2 + r.Intn(3)
+	frs := make([]*m.Def, nf)
+	for i := range frs {
+		frs[i] = &m.Def{IsFragment: true, Name: fmt.Sprintf("C%d", i), TypeCond: comps[r.Intn(len(comps))]}
+	}
+	var sel func(t *tsys.Def, depth, minFrag int) []*m.Sel
+	sel = func(t *tsys.Def, depth, minFrag int) []*m.Sel {
+		var out []*m.Sel
+		n := 1 + r.Intn(3)
+		for i := 0; i < n; i++ {
+			switch k := r.Intn(6); {
+			case k < 3 && (t.Kind == "type" || t.Kind == "interface") && len(t.Fields) > 0:
+				f := t.Fields[r.Intn(len(t.Fields))]
+				s := &m.Sel{Kind: m.SField, Name: f.Name}
+				if r.Chance(3, 4) {
+					s.Alias = r.Pick("x", "y")
+				}
+				for _, a := range f.Args {
+					if (a.Type.NonNull && a.Default == nil) || r.Chance(1, 3) {
+						s.Args = append(s.Args, m.Arg{Name: a.Name, Value: tsys.GenValue(r, g.Lookup, a.Type, 1, true)})
+					}
+				}
+				if td := mg.Types[f.Type.Base()]; td != nil && td.IsComposite() {
+					if depth > 0 {
+						s.Sel = sel(td, depth-1, minFrag)
+					} else {
+						s.Sel = []*m.Sel{{Kind: m.SField, Name: "__typename", Alias: r.Pick("", "x")}}
+					}
+				}
+				out = append(out, s)
+			case k < 4 && depth > 0:
+				cands := g.overlappingTypes(t)
+				if len(cands) > 0 {
+					tc := cands[r.Intn(len(cands))]
+					out = append(out, &m.Sel{Kind: m.SInline, TypeCond: tc, Sel: sel(mg.Types[tc], depth-1, minFrag)})
+				}
+			case k < 6:
+				// spread a later fragment whose type can apply here (no cycles: only higher indices)
+				ok := map[string]bool{}
+				for _, c := range g.overlappingTypes(t) {
+					ok[c] = true
+				}
+				for j := minFrag; j < nf; j++ {
+					if ok[frs[j].TypeCond] && r.Chance(1, 2) {
+						out = append(out, &m.Sel{Kind: m.SSpread, Name: frs[j].Name})
+						break
+					}
+				}
+			}
+		}
+		if len(out) == 0 {
+			out = append(out, &m.Sel{Kind: m.SField, Name: "__typename", Alias: r.Pick("", "x", "y")})
+		}
+		return out
+	}
+	for i, f := range frs {
+		f.Sel = sel(mg.Types[f.TypeCond], 2, i+1)
+	}
+	op := &m.Def{Op: "query", Name: "Collide", Sel: sel(root, 3, 0)}
+	doc := &m.Doc{Defs: []*m.Def{op}}
+	// keep only fragments reachable from the operation
+	used := map[string]bool{}
+	var reach func(ss []*m.Sel)
+	reach = func(ss []*m.Sel) {
+		for _, s := range ss {
+			if s.Kind == m.SSpread {
+				if !used[s.Name] {
+					used[s.Name] = true
+					for _, f := range frs {
+						if f.Name == s.Name {
+							reach(f.Sel)
+						}
+					}
+				}
+			} else {
+				reach(s.Sel)
+			}
+		}
+	}
+	reach(op.Sel)
+	for _, f := range frs {
+		if used[f.Name] {
+			doc.Defs = append(doc.Defs, f)
+		}
+	}
+	return doc
+}
+
+// PetsScenarioDoc builds, for the fixed "pets" schema (Query.pet: Pet, Query.owner: Person, Dog/Cat
+// implement Pet with friend: Person and mate: Pet), a document in which two fragments on one type
+// are compared under mutually exclusive parents AND spread side by side, in either order. The bodies
+// of the fragments are collision-style selections; the reference validator decides validity.
+func PetsScenarioDoc(r *core.Rand, mg *tsys.Merged) *m.Doc {
+	tName, via, rootField := "Person", "friend", "owner"
+	if r.Bool() {
+		tName, via, rootField = "Pet", "mate", "pet"
+	}
+	t := mg.Types[tName]
+	if t == nil {
+		return &m.Doc{}
+	}
+	body := func() []*m.Sel {
+		var out []*m.Sel
+		n := 1 + r.Intn(2)
+		for i := 0; i < n; i++ {
+			f := t.Fields[r.Intn(len(t.Fields))]
+			s := &m.Sel{Kind: m.SField, Name: f.Name, Alias: r.Pick("x", "y", "x")}
+			if td := mg.Types[f.Type.Base()]; td != nil && td.IsComposite() {
+				s.Sel = []*m.Sel{{Kind: m.SField, Name: "__typename"}}
+			}
+			out = append(out, s)
+		}
+		return out
+	}
+	fa := &m.Def{IsFragment: true, Name: "CA", TypeCond: tName, Sel: body()}
+	fb := &m.Def{IsFragment: true, Name: "CB", TypeCond: tName, Sel: body()}
+	spread := func(n string) *m.Sel { return &m.Sel{Kind: m.SSpread, Name: n} }
+	excl := &m.Sel{Kind: m.SField, Alias: "p1", Name: "pet", Sel: []*m.Sel{
+		{Kind: m.SInline, TypeCond: "Dog", Sel: []*m.Sel{{Kind: m.SField, Alias: "k", Name: via, Sel: []*m.Sel{spread("CA")}}}},
+		{Kind: m.SInline, TypeCond: "Cat", Sel: []*m.Sel{{Kind: m.SField, Alias: "k", Name: via, Sel: []*m.Sel{spread("CB")}}}},
+	}}
+	side := &m.Sel{Kind: m.SField, Alias: "s1", Name: rootField, Sel: []*m.Sel{spread("CA"), spread("CB")}}
+	if r.Bool() {
+		side.Sel = []*m.Sel{spread("CB"), spread("CA")}
+	}
+	op := &m.Def{Op: "query", Name: "Scenario", Sel: []*m.Sel{excl, side}}
+	if r.Bool() {
+		op.Sel = []*m.Sel{side, excl}
+	}
+	defs := []*m.Def{op, fa, fb}
+	p := r.Perm(3)
+	return &m.Doc{Defs: []*m.Def{defs[p[0]], defs[p[1]], defs[p[2]]}}
+}
